@@ -359,8 +359,8 @@ class SccCaptionParagraph:
           begin = caption_text.get_begin().to_temporal_offset()
 
           if self.get_caption_style() is SccCaptionStyle.PaintOn:
-            # Compute paragraph-relative begin time
-            begin -= self._begin.to_temporal_offset()
+            # Compute paragraph-relative begin time, which cannot precede the paragraph
+            begin = max(begin - self._begin.to_temporal_offset(), 0)
 
           span.set_begin(begin)
 
